@@ -268,3 +268,7 @@ func TestC10Ambiguity(t *testing.T) { h.Run(t, "C10", "ambiguity", genAmbiguity,
 func TestC10Volume(t *testing.T) {
 	h.Run(t, "C10", "volume", func(t *rapid.T) Hist { return genVolumeHist(t, true) }, volumeOf(judgeC10, true))
 }
+
+func TestC10Outage(t *testing.T) {
+	h.Run(t, "C10", "outage", func(t *rapid.T) Hist { return genOutageHist(t, true, false) }, outageOf(judgeOutage(false)))
+}
